@@ -1074,12 +1074,16 @@ def main(run):
         for nvar in ((2,) if quick else (2, 3)):
             for k in range(nvar):
                 vjobs.append((spec.name, nvar, k))
+    if quick:
+        vjobs.append((specs()[0].name, 3, 1))        # three variants created by ONE alter_num_variants call: the middle one
     vres = _pool_map(check_variants, vjobs)
     _absorb(run, vres, lambda r: f"variants:{r['spec']}", lambda r: dict(kind="variants", spec=r["spec"], **r["variant"]))
     sjobs = [(tpl, h) for tpl in (SEQ_TEMPLATES[:1] if quick else SEQ_TEMPLATES) for h in seq_histories(run.tier)]
     sres = _pool_map(check_seq_history, sjobs)
     _absorb(run, sres, lambda r: f"sequential:history:{r['hist']['how']}", lambda r: dict(kind="seq_history", tpl=r["tpl"], hist=r["hist"], spec=r["spec"]))
     svjobs = [(tpl, nvar, k) for tpl in SEQ_TEMPLATES for nvar in ((2,) if quick else (2, 3)) for k in range(nvar)]
+    if quick:
+        svjobs.append((SEQ_TEMPLATES[0], 3, 1))
     svres = _pool_map(check_seq_variants, svjobs)
     _absorb(run, svres, lambda r: "sequential:variants", lambda r: dict(kind="seq_variants", tpl=r["tpl"], spec=r["spec"], **r["variant"]))
     rjobs = [(st, h) for st in (RV_STRUCTS[:1] if quick else RV_STRUCTS) for h in rv_histories(run.tier)]
